@@ -6,7 +6,9 @@ cd /repo
 if [ -n "$(git status --porcelain --untracked-files=no)" ]; then echo "repo dirty"; exit 9; fi
 if [ "$P" = "--revert" ]; then shift; C="$1"; ID="$2"; TIER="${3:-quick}"; git diff "$C^" "$C" | git apply -R || exit 9
 else git apply "$P" || exit 9; fi
-cd /verif; ./check "$ID" --tier "$TIER" > /tmp/mut_$$.log 2>&1; rc=$?
+cd /verif; cp evidence/$ID.json /tmp/mut_ev_$$.json 2>/dev/null
+./check "$ID" --tier "$TIER" > /tmp/mut_$$.log 2>&1; rc=$?
 git -C /repo checkout -- .
+[ -f /tmp/mut_ev_$$.json ] && mv /tmp/mut_ev_$$.json evidence/$ID.json
 grep -E "^(VIOLATION|KNOWN|C[0-9]+ tier|HARNESS|VACUOUS)" /tmp/mut_$$.log | head -8; rm -f /tmp/mut_$$.log
 echo "exit=$rc"
